@@ -226,6 +226,22 @@ static bool apply(World& w, const Op& op)
       break;
     }
     case 'r': {
+      if (w.own[i] && m.registered(i)) {
+        // the function is registered in this incarnation: a second registration must be refused, and the refusal must leave
+        // the first one as it was (the probes after this step try once more)
+        std::optional<CB> second;
+        auto o = attempt([&] { second.emplace(sb.register_callback(cbf)); });
+        n_nontriv++;
+        if (o != ABORT) {
+          viol(sg("register", "duplicate-accepted"), kase, "the function is registered in this incarnation but a second registration did not abort");
+          return false;
+        }
+        g_cb_ran = 0;
+        int r = -1;
+        auto o2 = attempt([&] { r = sb.invoke_sandbox_function(call_cb_n, *w.own[i], 1, 1).UNSAFE_unverified(); });
+        if (o2 != RET || r != 6 || g_cb_ran != 1) viol(sg("register", "refused-duplicate-damaged-registration"), kase, "after a refused second registration the first one is no longer callable");
+        break;
+      }
       if (w.own[i]) return true; // one owner slot per object
       auto o = attempt([&] { w.own[i].emplace(sb.register_callback(cbf)); });
       if (m.st[i] != S_CREATED) {
